@@ -102,7 +102,8 @@ func Windows(m *mon.Monitor) WindowStats {
 						add([]string{"C16"}, "leader-stepped-down", leader, "leader %s reports state %s in term %d during the guarded window (was leader of term %d)", leader, e.St.State, e.St.Term, term)
 					}
 				case mon.KDeliver:
-					if e.Msg != nil && e.Msg.Kind == "AE" && e.Msg.From == leader {
+					// any request of the leader that reaches the follower is contact (a follower that is sent a snapshot gets no AppendEntries)
+					if e.Msg != nil && (e.Msg.Kind == "AE" || e.Msg.Kind == "IS") && e.Msg.From == leader {
 						if last, ok := lastDeliver[e.Msg.To]; ok {
 							if g := e.W - last; g > maxGap {
 								maxGap = g
